@@ -166,6 +166,20 @@ def block_after(s, fn_sig_pattern, stmt_pattern, what):
     return s[j:match_brace(s, j)]
 
 
+def region_to_block_end(s, fn_sig_pattern, start_pattern, block_stmt_pattern, what):
+    """Inside the named function: text from the start of start_pattern's (unique) match to the
+    end of the `{..}` block that follows block_stmt_pattern's (unique) match."""
+    _, i, e = fn_span(s, fn_sig_pattern, what + " (enclosing fn)")
+    a, _ = find_unique(start_pattern, s, what + " (start)", i, e)
+    _, b = find_unique(block_stmt_pattern, s, what + " (block)", i, e)
+    j = b
+    while j < e and s[j] in " \t\r\n":
+        j += 1
+    if j >= e or s[j] != "{" or j < a:
+        raise SliceError("anchor %s: block not found after the start anchor" % what)
+    return s[a:match_brace(s, j)]
+
+
 def region(s, fn_sig_pattern, start_pattern, end_pattern, what, include_end=True):
     """Inside the named function: text from the start of start_pattern's match up to the end
     (or start) of end_pattern's first match after it."""
@@ -187,6 +201,25 @@ def without_item(s, pattern, what):
         raise SliceError("anchor %s: %d matches" % (what, len(ms)))
     a, _, e = fn_span(s, pattern, what)
     return s[:a] + s[e:]
+
+
+def without_fn(s, fn_pattern, what):
+    """The text with the (unique) function matched by fn_pattern removed, together with the
+    doc comments / attributes directly above it."""
+    a, _, e = fn_span(s, fn_pattern, what)
+    # extend upwards over contiguous `///` / `#[..]` lines
+    start = s.rfind("\n", 0, a) + 1
+    while True:
+        prev_end = start - 1
+        if prev_end <= 0:
+            break
+        prev_start = s.rfind("\n", 0, prev_end) + 1
+        line = s[prev_start:prev_end].strip()
+        if line.startswith("///") or line.startswith("#["):
+            start = prev_start
+        else:
+            break
+    return s[:start] + s[e:]
 
 
 def sha(text):
